@@ -165,3 +165,42 @@ def stats(cases):
             "with_delay": sum(1 for c in cases for rx in c["spec"]["reactions"] if "delay" in rx),
             "unset_param_cases": sum(1 for c in cases if c["unset"])}
 def key(case): return json.dumps(case["spec"], sort_keys=True)
+
+
+# ------------------------------------------------------------------ evaluation INSIDE Coq (no extraction, no OCaml): the integer part
+def extra_checks(ctx):
+    """For a sample of cases the species order and both stoichiometric matrices reported by the implementation are written into
+    coq/Gen/CasesC03.v as Examples `model applied to the case = implementation's answer`, closed by vm_compute; reflexivity.
+    coqc accepting the file means the hand model, evaluated by Coq's own reduction machinery, agrees with the implementation on them;
+    this cross-checks extraction and the OCaml driver (which answer the same questions in the correspondence above)."""
+    import os, subprocess
+    from harness import common as C
+    cases = [(c, r) for c, r in zip(ctx["cases"], ctx["impl_res"]) if isinstance(r, dict) and "order" in r][: (40 if ctx["tier"] == "quick" else 400)]
+    if not cases: return {}
+    L = lambda xs: "[" + "; ".join(str(x) for x in xs) + "]"
+    Z = lambda xs: "[" + "; ".join("(%d)%%Z" % int(x) for x in xs) + "]"
+    lines = ["(* GENERATED by harness/props/c03.py on every run -- do not edit *)", "From Coq Require Import ZArith List.", "From BS Require Import Model.Builder.", "Import ListNotations.", ""]
+    for k, (c, r) in enumerate(cases):
+        spec = c["spec"]; ids = lambda l: [c["names"].index(x) for x in l]
+        rxs = []
+        for rx in spec["reactions"]:
+            d = rx.get("delay", {"reactants": [], "products": []})
+            rxs.append("mkRx %s %s %s %s" % (L(ids(rx["reactants"])), L(ids(rx["products"])), L(ids(d["reactants"])), L(ids(d["products"]))))
+        nsp, nrx = r["shape"]
+        S = [r["S"][i * nrx:(i + 1) * nrx] for i in range(nsp)]; Sd = [r["Sd"][i * nrx:(i + 1) * nrx] for i in range(nsp)]
+        lines.append("Definition rxs_%d : list reaction := [%s]." % (k, "; ".join(rxs)))
+        lines.append("Definition sp_%d : list nat := species_order %s rxs_%d %s." % (k, L(ids(spec["species"])), k, L(ids(list(spec["x0"].keys())))))
+        lines.append("Example order_%d : sp_%d = %s. Proof. vm_compute. reflexivity. Qed." % (k, k, L(r["order"])))
+        lines.append("Example S_%d : build_S sp_%d rxs_%d = [%s]. Proof. vm_compute. reflexivity. Qed." % (k, k, k, "; ".join(Z(row) for row in S)))
+        lines.append("Example Sd_%d : build_Sd sp_%d rxs_%d = [%s]. Proof. vm_compute. reflexivity. Qed." % (k, k, k, "; ".join(Z(row) for row in Sd)))
+    gen = os.path.join(C.COQ, "Gen", "CasesC03.v"); os.makedirs(os.path.dirname(gen), exist_ok=True)
+    open(gen, "w").write("\n".join(lines) + "\n")
+    p = subprocess.run(["timeout", "600", "coqc", "-Q", ".", "BS", "Gen/CasesC03.v"], cwd=C.COQ, stdout=subprocess.PIPE, stderr=subprocess.STDOUT, text=True)
+    fails = []
+    if p.returncode != 0:
+        import re
+        m = re.search(r'line (\d+)', p.stdout); ln = int(m.group(1)) if m else 0
+        which = lines[ln - 1][:160] if 0 < ln <= len(lines) else "?"
+        k = int(re.search(r'_(\d+) ', which).group(1)) if re.search(r'_(\d+) ', which) else 0
+        fails.append((cases[min(k, len(cases) - 1)][0], "in-Coq evaluation: the model evaluated by vm_compute differs from the implementation at `%s` (%s)" % (which, p.stdout.strip().splitlines()[-1][:160] if p.stdout.strip() else "coqc failed")))
+    return {"oracle_fail": fails, "coverage": {"cases_evaluated_inside_coq": len(cases), "in_coq_examples": 3 * len(cases)}}
